@@ -2,7 +2,12 @@
 (* Level-A trace specification for C05: judges what a loopback endpoint      *)
 (* received from a real destination.  trace.ndjson, one event per line:       *)
 (*   run   a new run: `handed` lines (numbered 1..handed in hand-off order)   *)
-(*         were handed to the route                                           *)
+(*         were handed to the route; gens = 1: over the destination's one     *)
+(*         connection.  gens = 2 (spec/ConnStreamGen.tla): the endpoint cut   *)
+(*         the first connection, the relay reconnected, and the `handed`      *)
+(*         lines are those handed while the SECOND, healthy connection was    *)
+(*         the relay's connection; the events describe that connection's      *)
+(*         stream (the first connection's writer may still write late)        *)
 (*   recv  the next units of the byte stream (a line terminated by a single   *)
 (*         newline, or a length-prefixed pickle) are, intact, the lines       *)
 (*         a, a+1, .., b                                                      *)
@@ -12,32 +17,33 @@
 (*         slow = delta of the slow_conn drop counter, conns = connections    *)
 (*         the relay opened, stalled = "received + slow_conn" never reached   *)
 (*         "handed"                                                           *)
+(*         (conns must equal gens: the relay keeps a healthy connection)      *)
 (* A trace is accepted iff every line is matched (high-water mark = Len).     *)
 EXTENDS ConnStreamOps, Json, TLC, TLCExt, IOUtils
 
 TLog == ndJsonDeserialize("trace.ndjson")
 
-VARIABLES l, handed, last, nrecv
-tvars == <<l, handed, last, nrecv>>
+VARIABLES l, handed, last, nrecv, gens
+tvars == <<l, handed, last, nrecv, gens>>
 
 ASSUME TLCSet(1, 0)
 
 Ev == TLog[l]
 Is(e) == l <= Len(TLog) /\ Ev.ev = e /\ l' = l + 1
 
-TInit == l = 1 /\ handed = 0 /\ last = 0 /\ nrecv = 0
+TInit == l = 1 /\ handed = 0 /\ last = 0 /\ nrecv = 0 /\ gens = 1
 
-TRun  == Is("run") /\ handed' = Ev.handed /\ last' = 0 /\ nrecv' = 0
+TRun  == Is("run") /\ handed' = Ev.handed /\ last' = 0 /\ nrecv' = 0 /\ gens' = Ev.gens /\ Ev.gens \in {1, 2}
 TRecv == /\ Is("recv")
          /\ InOrderOnce(last, Ev.a, Ev.b, handed)
          /\ last' = Ev.b /\ nrecv' = nrecv + (Ev.b - Ev.a + 1)
-         /\ UNCHANGED handed
+         /\ UNCHANGED <<handed, gens>>
 TEnd  == /\ Is("end")
          /\ Ev.tail = 0                 \* the last line is terminated / the last frame complete
          /\ ~Ev.stalled                 \* every line was received or counted
-         /\ Ev.conns = 1                \* the relay kept its (healthy) connection
+         /\ Ev.conns = gens             \* the relay kept its (healthy) connection
          /\ Accounted(handed, nrecv, Ev.slow)
-         /\ UNCHANGED <<handed, last, nrecv>>
+         /\ UNCHANGED <<handed, last, nrecv, gens>>
 
 TNext == TRun \/ TRecv \/ TEnd
 TSpec == TInit /\ [][TNext]_tvars
